@@ -263,7 +263,7 @@ void execute(const Workload& w, Result& res) {
     res.probe("jobs", uint64_t(nj));
 }
 
-const sim::HarnessDef def = {"C10", true, 120, generate, execute, nullptr};
+const sim::HarnessDef def = {"C10", true, 30, generate, execute, nullptr};
 
 } // namespace
 
